@@ -25,6 +25,12 @@ CHECKS = {
         "quick": {"runs": 20000, "wall": 80},
         "thorough": {"runs": 400000, "wall": 1500},
     },
+    "C10": {
+        "level": "exploration",
+        "legs": [("ndf", "C10")],
+        "quick": {"runs": 20000, "wall": 80},
+        "thorough": {"runs": 400000, "wall": 1500},
+    },
 }
 
 
@@ -34,6 +40,17 @@ def leg_of(check, i):
 
 
 EVIDENCE_TEXT = {
+    "C10": {
+        "rule": "fresh-replay scripts as in C01 with the counting events emphasised (fix, release, fix again, fix(name, value), simple and n-parameter "
+                "matrix constraints, do_fit before the observation in a third of the runs); observed first on a fresh fit: ndf (integer ==), "
+                "goodness_of_fit, chi2_probability, result dict ndf and gof/ndf, against the counting model and the closed forms "
+                "(GoF = cost - saturated cost without determinant; probability = chi2.sf(cost without determinant, ndf)). Multi-fit legs are added by M-MULTI. "
+                "non-trivial = >=1 probe in the domain and >=4 ops; distinct = distinct event-log digests.",
+        "states_measure": "distinct declared configurations (as C01)",
+        "assumptions": ["domain restrictions of C01", "Gaussian-approximation GoF additionally needs V+diag(data) positive definite (saturated point)",
+                        "a do_fit that raises discards the case (fit success is not C10's subject)",
+                        "HistFit model-relative sources are mirrored as kafe2 applies them (deviation is C01's finding F-C01-1)"],
+    },
     "C01": {
         "rule": "each run = fit type (xy/indexed/histogram/unbinned, stratified) x built-in cost identifier x data set x model family + a seeded "
                 "script of mutators only (sources simple/matrix, abs/rel, data/model reference, x/y axis, correlations, via the fit or via "
